@@ -143,6 +143,9 @@ func transImp(sig *isig) string {
 			v.readOnly = p.kind == pDecIn
 		case pEDIO:
 			v.kind, v.cat = vVal, cED
+			if p.cat == cLoopPtr {
+				v.cat = cLoop
+			}
 		case pBigIO:
 			v.kind, v.cat = vVal, cBig
 		case pIntIO:
